@@ -115,7 +115,7 @@ fn observe(w: &EpochWorld) -> Vec<String> {
 fn monitor(out: &mut Out, w: &EpochWorld, tr: &Tracker, replay: &Value) {
     out.monitor_evals += 1;
     let tb = w.q_total_bonded();
-    let mut all_bonded: u128 = 0;
+    let mut all_bonded = cosmwasm_std::Uint256::zero();
     for d in 0..2 {
         let mut bonded: u128 = 0;
         let mut pending: u128 = 0;
@@ -129,16 +129,16 @@ fn monitor(out: &mut Out, w: &EpochWorld, tr: &Tracker, replay: &Value) {
             }
         }
         let bal = w.bal(w.lair.as_str(), D[d]);
-        if bal != bonded + pending + tr.donated[d] {
+        if cosmwasm_std::Uint256::from(bal) != cosmwasm_std::Uint256::from(bonded) + cosmwasm_std::Uint256::from(pending) + cosmwasm_std::Uint256::from(tr.donated[d]) {
             out.monitor_fail("C08", &format!("contract balance of {} is {} but bonded {} + unbonding {} (+ donated {}): {} units are neither bonded, pending nor returned",
-                D[d], bal, bonded, pending, tr.donated[d], bal as i128 - (bonded + pending + tr.donated[d]) as i128), replay.clone());
+                D[d], bal, bonded, pending, tr.donated[d], (bal as i128).wrapping_sub((bonded as i128).wrapping_add(pending as i128).wrapping_add(tr.donated[d] as i128))), replay.clone());
         }
         if asset_amount(&tb.bonded_assets, D[d]) != bonded {
             out.monitor_fail("C08", &format!("global bonded_assets[{}] = {} != sum of the users' bonds {}", D[d], asset_amount(&tb.bonded_assets, D[d]), bonded), replay.clone());
         }
-        all_bonded += bonded;
+        all_bonded += cosmwasm_std::Uint256::from(bonded);
     }
-    if tb.total_bonded.u128() != all_bonded {
+    if cosmwasm_std::Uint256::from(tb.total_bonded.u128()) != all_bonded {
         out.monitor_fail("C08", &format!("global bonded total {} != sum of the users' bonds {}", tb.total_bonded, all_bonded), replay.clone());
     }
     if w.bal(w.lair.as_str(), D[2]) != tr.donated[2] {
@@ -324,6 +324,18 @@ fn corpus(out: &mut Out) {
     let mut hs = hs;
     let mut many: Vec<(u64, Ev)> = vec![(t0, Ev::Bond { who: 2, native: true, denom: 0, amount: 10_000, funds: vec![(0, 10_000)] })];
     for i in 0..33u64 { many.push((t0 + 1 + i, Ev::Unbond { who: 2, native: true, denom: 0, amount: 10 + i as u128 })); }
+    // bonds whose sum exceeds 128 bits: the bond that would overflow the global total is refused (nothing may be clamped)
+    let big = crate::world::RICH - 1_000;
+    hs.push((1_000, DEC_ONE, vec![
+        (t0, Ev::Bond { who: 0, native: true, denom: 0, amount: big, funds: vec![(0, big)] }),
+        (t0, Ev::Bond { who: 1, native: true, denom: 0, amount: big, funds: vec![(0, big)] }),
+        (t0, Ev::Bond { who: 2, native: true, denom: 1, amount: big, funds: vec![(1, big)] }),
+        (t0, Ev::Bond { who: 0, native: true, denom: 1, amount: big, funds: vec![(1, big)] }),
+        (t0 + 1, Ev::Bond { who: 1, native: true, denom: 1, amount: big, funds: vec![(1, big)] }),
+        (t0 + 2, Ev::Unbond { who: 2, native: true, denom: 1, amount: big }),
+        (t0 + 3, Ev::Unbond { who: 0, native: true, denom: 0, amount: big / 2 }),
+        (t0 + 2_000, Ev::Withdraw { who: 2, denom: 1 }),
+    ]));
     many.push((t0 + 2_000, Ev::Withdraw { who: 2, denom: 0 }));
     many.push((t0 + 2_001, Ev::Withdraw { who: 2, denom: 0 }));
     many.push((t0 + 2_002, Ev::Withdraw { who: 2, denom: 0 }));
